@@ -71,8 +71,8 @@ def run_api(base, chk, fname, nslice=2, log_reads=False, leak=False):
             elif t == "[]byte" or t == "[]uint8":
                 n = {"SetUniformBytes": 64}.get(short, 32)
                 bs = [dom.input("x[%d]" % j, 0, 255) for j in range(n)]
-                oid = ex.new_obj(path, ("array", n, prog.T("uint8")), name="x", init=list(bs))
-                args.append(X.SliceV(oid, (), 0, n, n))
+                oid = ex.new_obj(path, ("array", n + 72, prog.T("uint8")), name="x", init=list(bs) + [0xEE] * 72)
+                args.append(X.SliceV(oid, (), 0, n, n + 72))
                 if short == "SetCanonicalBytes":
                     path.pc.append(LFCond("<=", K.bval(bs) - (K.L - 1)))
                     ex.summaries[E + "isReduced"] = lambda ex_, p_, a_: True
@@ -148,8 +148,8 @@ def run_api(base, chk, fname, nslice=2, log_reads=False, leak=False):
             elif t in ("[]byte", "[]uint8"):
                 n = 64 if short == "SetWideBytes" else 32
                 bs = [z3.BitVec("x[%d]" % j, 8) for j in range(n)]
-                oid = ex.new_obj(path, ("array", n, prog.T("uint8")), name="x", init=list(bs))
-                args.append(X.SliceV(oid, (), 0, n, n))
+                oid = ex.new_obj(path, ("array", n + 72, prog.T("uint8")), name="x", init=list(bs) + [0xEE] * 72)
+                args.append(X.SliceV(oid, (), 0, n, n + 72))
             else:
                 raise X.ExecError("sweep: param type %s of %s" % (t, fname))
         if short == "SetWideBytes":
